@@ -2,6 +2,7 @@ import IxpeVerif.RealInst
 import IxpeVerif.Model.Kislat
 import IxpeVerif.Lemmas.Basic
 import IxpeVerif.Gen.Formulas
+import IxpeVerif.Lemmas.AnaTie
 /-!
 # C02 — polarization cubes implement the Kislat et al. (2015) estimator
 
@@ -179,12 +180,62 @@ theorem gen_neff_eq_model (c I W2 : ℝ) : (Gen.calculate_n_eff c I W2).1 = nEff
   rl_simp
   by_cases h1 : (0.0 : ℝ) < I <;> simp [h1]
 
+/-- the scalar path of `calculate_n_eff` (counts a Python number, as in `polarization_table`): the same N_EFF, and FRAC_W = N_EFF / COUNTS -/
+theorem gen_neff_scalar_eq_model (c I W2 : ℝ) :
+    Gen.calculate_n_eff_scalar c I W2 = (nEff I W2, nEff I W2 / c) := by
+  unfold Gen.calculate_n_eff_scalar nEff
+  rl_simp
+  by_cases h1 : (0.0 : ℝ) < I <;> simp [h1]
+
 /-- the headline ranges, restated on the generated code -/
 theorem gen_ranges (I Q U mu W2 : ℝ) :
     0 ≤ (Gen.calculate_polarization I Q U mu W2 true).1 ∧ |(Gen.calculate_polarization I Q U mu W2 true).2.2.1| ≤ 90 ∧
       0 ≤ Gen.calculate_mdp99 mu I W2 true ∧ Gen.calculate_mdp99 mu I W2 true ≤ 1 := by
   rw [gen_polarization_eq_model, gen_mdp_eq_model]
   exact ⟨pd_nonneg I Q U mu W2 true, pa_abs_le_90 I Q U mu W2, (mdp_in_unit mu I W2).1, (mdp_in_unit mu I W2).2⟩
+
+/-! ## T-tie of the event-list layer (translator/vectrans.py → `Gen/AnaGen.lean`)
+
+The constructor of `xStokesAnalysis` (energy filter, weights, acceptance correction, division by μ(E)), the masked reductions and the row of
+`polarization_table`, regenerated from the vectorised source, against `Kislat.prep / binSums / row`. -/
+
+/-- **the generated constructor yields the prepared events of the model**, column by column, for every event list, responses, weights on/off,
+acceptance correction on/off (ℝ has no NaN: the first filter of the constructor is the identity) -/
+theorem gen_init_eq_model (raw : List (ℝ × ℝ × ℝ × ℝ)) (modf aeff : ℝ → ℝ) (livetime : ℝ) (useW acc : Bool) :
+    AnaTie.Cols (AnaTie.genInit raw modf aeff livetime useW acc) (prep useW acc (raw.map (AnaTie.mkEv modf aeff))) :=
+  AnaTie.gen_init_cols raw modf aeff livetime useW acc
+
+/-- **the generated row of `polarization_table` is the row of the model, in the order of the column names**: on an analysis object whose arrays are
+the columns of `ps`, for every bin -/
+theorem gen_table_row_eq_model {st : Gen.Ana.State ℝ} {ps : List (Prep ℝ)} (h : AnaTie.Cols st ps) (emin emax sig : ℝ) :
+    List.zip Gen.Ana.table_columns (Gen.Ana.table_row st emin emax true sig) =
+      (let s := binSums emin emax ps
+       let mu := s.muW / s.I
+       let e := stokesErrors s.I s.Q s.U mu s.W2
+       let p := polarization s.I s.Q s.U mu s.W2 true
+       [("ENERG_LO", emin), ("ENERG_HI", emax), ("E_MEAN", s.eW / s.I), ("COUNTS", (s.counts : ℝ)), ("MU", mu), ("W2", s.W2), ("N_EFF", nEff s.I s.W2),
+        ("FRAC_W", nEff s.I s.W2 / (s.counts : ℝ)), ("MDP_99", mdp99 mu s.I s.W2), ("I", s.I), ("I_ERR", e.dI), ("Q", s.Q), ("Q_ERR", e.dQ),
+        ("U", s.U), ("U_ERR", e.dU), ("QN", e.QN), ("QN_ERR", e.dQN), ("UN", e.UN), ("UN_ERR", e.dUN), ("QUN_COV", e.cov), ("PD", p.pd),
+        ("PD_ERR", p.pdErr), ("PA", p.pa), ("PA_ERR", p.paErr), ("P_VALUE", e.pval), ("CONFID", e.conf), ("SIGNIF", sig)]) := by
+  unfold Gen.Ana.table_row Gen.Ana.table_columns
+  rw [AnaTie.gen_energy_mask_eq h]
+  simp only [AnaTie.gen_average_energy_eq h, AnaTie.gen_effective_mu_eq h, AnaTie.countR_map, AnaTie.gen_w2_eq h, AnaTie.gen_sum_stokes_eq h,
+    gen_stokes_errors_eq_model, gen_mdp_eq_model, gen_polarization_eq_model, gen_neff_scalar_eq_model]
+  rfl
+
+/-- the numeric columns of the model row are those of the generated row, read by name -/
+theorem gen_table_row_model_row {st : Gen.Ana.State ℝ} {ps : List (Prep ℝ)} (h : AnaTie.Cols st ps) (emin emax sig : ℝ) :
+    ((List.zip Gen.Ana.table_columns (Gen.Ana.table_row st emin emax true sig)).filter
+        fun p => !(["ENERG_LO", "ENERG_HI", "COUNTS", "FRAC_W", "SIGNIF"].contains p.1)).map (·.2) = row (binSums emin emax ps) := by
+  rw [gen_table_row_eq_model h]
+  simp [row]
+
+/-- end to end: columns of a file → generated constructor → generated row = the model row of the prepared events -/
+theorem gen_analysis_eq_model (raw : List (ℝ × ℝ × ℝ × ℝ)) (modf aeff : ℝ → ℝ) (livetime : ℝ) (useW acc : Bool) (emin emax sig : ℝ) :
+    ((List.zip Gen.Ana.table_columns (Gen.Ana.table_row (AnaTie.genInit raw modf aeff livetime useW acc) emin emax true sig)).filter
+        fun p => !(["ENERG_LO", "ENERG_HI", "COUNTS", "FRAC_W", "SIGNIF"].contains p.1)).map (·.2) =
+      row (binSums emin emax (prep useW acc (raw.map (AnaTie.mkEv modf aeff)))) :=
+  gen_table_row_model_row (gen_init_eq_model raw modf aeff livetime useW acc) emin emax sig
 
 end C02
 end
